@@ -766,13 +766,30 @@ Proof.
     specialize (IH st1 js H1). destruct (apply_rows st1 t now js) as [[st2 os2] js2]. exact IH.
 Qed.
 
+Lemma NoDup_keys_filter {V} (f : bytes * V -> bool) : forall l, NoDup (keys l) -> NoDup (keys (filter f l)).
+Proof.
+  induction l as [|[k v] t IH]; intros H; [constructor|]. cbn [filter]. inversion H; subst.
+  destruct (f (k, v)); [|apply IH; assumption]. cbn [keys map fst]. constructor; [|apply IH; assumption].
+  intros Hin. apply H2. unfold keys in *. apply in_map_iff in Hin as (x & E & Hx). apply filter_In in Hx as [Hx _].
+  apply in_map_iff. exists x. split; assumption.
+Qed.
+
+Lemma forget_service_nodup full rg : RPn rg -> RPn (forget_service full rg).
+Proof. intros H. unfold forget_service, forget_name, RPn. cbn [rg_probing]. apply NoDup_keys_filter, NoDup_keys_filter. exact H. Qed.
+
+Lemma forget_regs_nodup full regs : Forall (fun kr => RPn (snd kr)) regs -> Forall (fun kr => RPn (snd kr)) (forget_regs full regs).
+Proof.
+  intros H. unfold forget_regs. apply Forall_forall. intros kr Hin. apply in_map_iff in Hin as (x & <- & Hx). cbn [snd].
+  apply forget_service_nodup. exact (proj1 (Forall_forall _ _) H x Hx).
+Qed.
+
 Lemma exec_calls_nodup now : forall cs st js, regs_nodup st -> regs_nodup (fst (fst (exec_calls st cs now js))).
 Proof.
   induction cs as [|c t IH]; intros st js H; [exact H|]. cbn [exec_calls].
   assert (H1 : regs_nodup (fst (fst (fst (exec_call st c now js))))).
   { destruct c; cbn [exec_call].
     - pose proof (register_service_nodup st s now js H). destruct (register_service st s now js) as [[? ?] ?]. exact H0.
-    - unfold unregister. destruct (aget (lower name) (d_svcs st)); exact H.
+    - unfold unregister. destruct (aget (lower name) (d_svcs st)); [|exact H]. apply forget_regs_nodup. exact H.
     - exact H.
     - exact H.
     - unfold select_interfaces.
@@ -993,4 +1010,66 @@ Proof.
   rewrite E0. destruct (d_retrans st) as [|[t0 c0] l] eqn:ER.
   - exists d0. split; [reflexivity|exact L0].
   - apply (fold_due_le _ _ (pb_next p) c0). right. exists d0. split; [reflexivity|exact L0].
+Qed.
+
+(* ======================================================================================================
+   C09: unregister makes every registry forget the service's own names (fix d685fcf)
+   ====================================================================================================== *)
+
+Lemma aget_filter_same {V} n : forall l : list (bytes * V), aget n (filter (fun kv => negb (beq (fst kv) n)) l) = None.
+Proof.
+  induction l as [|[k v] t IH]; [reflexivity|]. cbn [filter fst]. destruct (beq k n) eqn:B; cbn [negb]; [exact IH|].
+  cbn [aget]. destruct (beq n k) eqn:B2; [apply beq_eq in B2; subst; rewrite beq_refl in B; discriminate|exact IH].
+Qed.
+Lemma aget_filter_other {V} n m : m <> n -> forall l : list (bytes * V), aget m (filter (fun kv => negb (beq (fst kv) n)) l) = aget m l.
+Proof.
+  intros Hne. induction l as [|[k v] t IH]; [reflexivity|]. cbn [filter fst aget]. destruct (beq k n) eqn:B; cbn [negb].
+  - apply beq_eq in B. subst k. destruct (beq m n) eqn:B2; [apply beq_eq in B2; contradiction|exact IH].
+  - cbn [aget]. destruct (beq m k); [reflexivity|exact IH].
+Qed.
+Lemma aget_filter_none {V} n m : forall l : list (bytes * V), aget m l = None -> aget m (filter (fun kv => negb (beq (fst kv) n)) l) = None.
+Proof.
+  intros l H. destruct (beq m n) eqn:B; [apply beq_eq in B; subst; apply aget_filter_same|].
+  rewrite aget_filter_other; [exact H|]. intros ->. rewrite beq_refl in B. discriminate.
+Qed.
+
+Lemma nget_forget_regs full i : forall regs, nget i (forget_regs full regs) = option_map (forget_service full) (nget i regs).
+Proof.
+  induction regs as [|[k rg] t IH]; [reflexivity|]. cbn [forget_regs map nget fst snd]. destruct (i =? k); [reflexivity|exact IH].
+Qed.
+
+(* no entry under the registered full name or under the name the service currently has there *)
+Lemma forget_service_none full rg n :
+  n = full \/ n = resolve_name rg full ->
+  aget n (rg_probing (forget_service full rg)) = None /\ aget n (rg_active (forget_service full rg)) = None /\
+  aget n (rg_changes (forget_service full rg)) = None.
+Proof.
+  unfold forget_service, forget_name. cbn [rg_probing rg_active rg_changes]. intros [->| ->].
+  - repeat split; apply aget_filter_none, aget_filter_same.
+  - repeat split; apply aget_filter_same.
+Qed.
+
+(* every entry under another name is exactly what it was: host-name entries (address records), entries
+   of other services, name changes of other names *)
+Lemma forget_service_other full rg n :
+  n <> full -> n <> resolve_name rg full ->
+  aget n (rg_probing (forget_service full rg)) = aget n (rg_probing rg) /\
+  aget n (rg_active (forget_service full rg)) = aget n (rg_active rg) /\
+  aget n (rg_changes (forget_service full rg)) = aget n (rg_changes rg).
+Proof.
+  intros H1 H2. unfold forget_service, forget_name. cbn [rg_probing rg_active rg_changes].
+  repeat split; rewrite !aget_filter_other by assumption; reflexivity.
+Qed.
+
+(* AFTER unregister (OK), in EVERY state: each interface registry is the old one with the service's
+   own names forgotten *)
+Theorem unregister_forgets st k ch now s i rg :
+  aget k (d_svcs st) = Some s -> nget i (d_regs st) = Some rg ->
+  nget i (d_regs (fst (unregister st k ch now))) = Some (forget_service (s_full s) rg) /\
+  forall n, n = s_full s \/ n = resolve_name rg (s_full s) ->
+    aget n (rg_probing (forget_service (s_full s) rg)) = None /\ aget n (rg_active (forget_service (s_full s) rg)) = None /\
+    aget n (rg_changes (forget_service (s_full s) rg)) = None.
+Proof.
+  intros G R. rewrite (unregister_found _ _ _ _ _ G). cbn [fst d_regs]. rewrite nget_forget_regs, R. split; [reflexivity|].
+  intros n Hn. exact (forget_service_none _ _ _ Hn).
 Qed.
